@@ -1,4 +1,5 @@
 import Pff.Model.Csv
+import Pff.Proofs.Csv
 /-!
 # The csv layer round-trips every row (C05, C16, C17, C18)
 
@@ -16,16 +17,16 @@ quoting alone a field containing a carriage return is written bare and read back
 namespace Pff.Csv
 
 theorem C05_csv_roundtrip (rows : List (List Str)) : readAll (writeRows rows) = some rows := by
-  sorry
+  exact readAll_writeRows rows
 
 /-- update mode appends to the file: same as writing all rows at once, hence read back as the
 old rows followed by the new ones -/
 theorem C16_csv_append (old new : List (List Str)) :
     readAll (writeRows old ++ writeRows new) = some (old ++ new) := by
-  sorry
+  rw [writeRows_append]; exact readAll_writeRows (old ++ new)
 
 theorem C05_csv_cr_witness :
     readAll (writeRowWith false [[97, 13, 98], [120]]) = some [[[97]], [[98], [120]]] := by
-  sorry
+  rw [readAll_eq_go]; decide
 
 end Pff.Csv
